@@ -481,7 +481,6 @@ func init() {
 		assumptions: commonAssumptions,
 		run: func(tier string, res *core.Result) {
 			sn := flagx.RunSentinel(def, core.Scope{Patterns: []string{"./lapack/gonum"}, Files: func(rel string) bool { return rel == "lapack/gonum/dggsvp3.go" }})
-			sn.Floor("uniform_fills_handed_to_a_sentinel_parameter", 1)
 			res.Merge(sn)
 			r := okflow.Run(def, core.Pkgs("./mat", "./lapack/lapack64", "./lapack/gonum"))
 			r.Floor("status_call_sites", 120)
